@@ -1058,7 +1058,8 @@ func (r *c17Run) release() *vrt.Verdict {
 		}
 	}
 	if !c17Await(waited) {
-		// the loop goroutine must be parked in all three dumps to call it stuck
+		// Only the loop goroutine calls WG.Done(): stuck means that in all
+		// three dumps it is parked, or no longer exists.
 		stuck, detail := true, ""
 		for i := 0; i < 3; i++ {
 			if i > 0 {
@@ -1075,7 +1076,7 @@ func (r *c17Run) release() *vrt.Verdict {
 				}
 			}
 			if !found {
-				stuck = false
+				detail += fmt.Sprintf("dump %d: watchLoop absent; ", i+1)
 			}
 		}
 		if waited() {
